@@ -213,8 +213,13 @@ pub fn check(c: &Ctx, st: &mut Stats) -> Check {
             if cfg2.key == cfg.key && what >= 4 {
                 continue;
             }
+            // the unchanged SYN again, immediately before the varied one (a retransmission must
+            // give the same cookie, and the varied SYN directly follows a SYN of the original tuple
+            // under the original key)
+            let base = synack_seq(&sut.frame(&syn_frame(c, net, c.sport, c.dport, F_SYN, c.seq))).map_err(Failure::new)?;
+            vensure!(base == Some(cookie), "cookie of a retransmitted SYN changed: {:#x} vs {:?}", cookie, base);
             let s2 = Sut::new(&cfg2);
-            st.frames(1);
+            st.frames(2);
             let k2 = synack_seq(&s2.frame(&syn_frame(c, &n, sp, dp, F_SYN, c.seq))).map_err(Failure::new)?;
             match k2 {
                 None => vfail!("SYN not answered after changing input #{} of the cookie", what),
@@ -224,6 +229,8 @@ pub fn check(c: &Ctx, st: &mut Stats) -> Check {
         }
         vensure!(equal < 3, "cookie does not depend on {}: three different values gave the same SYN-ACK sequence number {:#x}", ["the source IP address", "the destination IP address", "the source port", "the destination port", "the key", "the first half of the key", "the second half of the key"][what], cookie);
     }
+    let last = synack_seq(&sut.frame(&syn_frame(c, net, c.sport, c.dport, F_SYN, c.seq))).map_err(Failure::new)?;
+    vensure!(last == Some(cookie), "cookie of a retransmitted SYN changed after SYNs of other tuples / keys: {:#x} vs {:?}", cookie, last);
     st.sample(|| json!({"tuple": format!("{}:{} -> {}:{}", net.cip, c.sport, net.sip, c.dport), "seq": c.seq, "cookie": cookie, "history": c.hist, "payload_len": c.payload.len()}));
     Ok(())
 }
